@@ -453,10 +453,12 @@ impl<
             diameter_low: 0,
             diameter_high: num_nodes - 1,
             radius_low: 0,
+            // One more than the largest possible radius, so that the first
+            // radial vertex attaining the radius is always recorded
             radius_high: if symmetric {
-                num_nodes / 2
+                num_nodes / 2 + 1
             } else {
-                num_nodes - 1
+                num_nodes
             },
             radius_iterations: None,
             diameter_iterations: None,
